@@ -78,7 +78,9 @@ def all_labels():
 
 DEFINING = ["select", "select-second", "returning", "distinct-on", "insert-select"]
 REFERRING = ["groupby-selected", "orderby-selected", "groupby-unselected", "orderby-unselected", "setop-orderby-selected",
-             "groupby-selected-join", "groupby-selected-subquery"]
+             "groupby-selected-join", "groupby-selected-subquery",
+             # the alias is defined only by a discarded sibling branch / another statement / a select list since replaced by *
+             "groupby-sibling-unselected", "orderby-sibling-unselected", "groupby-elsewhere-unselected", "orderby-after-star-unselected"]
 
 
 def cases(tier, seed, shard, nshards):
@@ -174,6 +176,17 @@ def build_position(case, aliased):
         return Q.from_(t).select(y).orderby(x)
     if pos == "setop-orderby-selected":
         return Q.from_(t).select(x).union(Q.from_(t).select(y)).orderby(x)
+    if pos in ("groupby-sibling-unselected", "orderby-sibling-unselected"):
+        base = Q.from_(t)
+        sibling = base.select(x, y)
+        str(sibling)
+        q = base.select(y)
+        return q.groupby(x) if pos.startswith("groupby") else q.orderby(x)
+    if pos == "groupby-elsewhere-unselected":
+        str(Q.from_(t).select(x, y).groupby(x))
+        return Q.from_(t).select(y).groupby(x)
+    if pos == "orderby-after-star-unselected":
+        return Q.from_(t).select(x).select("*").orderby(x)
     raise ValueError(pos)
 
 
